@@ -592,6 +592,9 @@ func keyMatches(key, m string) bool {
 	if m == "cells" {
 		return key[0] == 'C'
 	}
+	if strings.HasPrefix(m, "elem:") {
+		return key[0] == 'E' && (body == m[5:] || hasSuffixAt(body, m[5:]))
+	}
 	if strings.HasSuffix(m, "*") && key[0] != 'G' {
 		return strings.HasPrefix(body, m[:len(m)-1]) || strings.HasPrefix(strings.TrimPrefix(body, "*"), m[:len(m)-1])
 	}
